@@ -100,6 +100,8 @@ func cmdAsyncLoad(f hx.Flags, r *hx.Result) {
 	twoLoggers(r)
 	slowDrain(r)
 	rawToEveryRef(r)
+	emptyRawInTheMiddle(r)
+	blockWaitsAsLongAsItTakes(r)
 	for run := 0; run < runs && !hx.Stopped(); run++ {
 		pi := run % 3
 		mode := modes[(run/3)%3]
@@ -535,6 +537,109 @@ func slowDrain(r *hx.Result) {
 	if n != 90 || lg.GetDiscardCounter() != 0 {
 		r.Violate("conservation:Block", map[string]any{"policy": "Block", "backlog_at_stop": "about 90 items x 40 ms", "stop_took_ms": time.Since(t0).Milliseconds()},
 			"when Stop returned (after %d ms) %d of 90 submitted items had been delivered, discard counter %d", time.Since(t0).Milliseconds(), n, lg.GetDiscardCounter())
+	}
+}
+
+// emptyRawInTheMiddle: a raw write of no bytes (nil or an empty slice) is an item like any other: it is handed to
+// the appender once, in order, and everything submitted after it is delivered too - under every policy.
+func emptyRawInTheMiddle(r *hx.Result) {
+	for _, pol := range []log.BufferFullPolicy{log.BufferFullPolicyBlock, log.BufferFullPolicyDiscard, log.BufferFullPolicyDiscardOldest} {
+		for variant, empty := range [][]byte{nil, {}, make([]byte, 0, 16)} {
+			rec := &sys.RecAppender{}
+			lg := &log.AsyncLogger{
+				LoggerBase: log.LoggerBase{Level: log.LevelRange{MinLevel: log.InfoLevel, MaxLevel: log.MaxLevel}},
+				AppenderRefs: log.AppenderRefs{AppenderRefs: []*log.AppenderRef{{Appender: rec,
+					Level: log.LevelRange{MinLevel: log.InfoLevel, MaxLevel: log.MaxLevel}}}},
+				BufferSize: 100, BufferFullPolicy: pol,
+			}
+			if err := lg.Start(); err != nil {
+				r.SetInfra("emptyRawInTheMiddle: %v", err)
+				return
+			}
+			desc := map[string]any{"policy": fmt.Sprint(pol), "sequence": "event 1, raw A, empty raw write, event 2, raw B, empty raw write, event 3", "empty_variant": variant}
+			put := func(id int64) {
+				e := log.GetEvent()
+				e.Level, e.Time, e.Tag = log.InfoLevel, time.Now(), "load"
+				e.Fields = []log.Field{log.Int("id", id)}
+				lg.Append(e)
+			}
+			ok, pv := hx.Within(10e9, func() {
+				put(1)
+				lg.Write([]byte("raw-A\n"))
+				lg.Write(empty)
+				put(2)
+				lg.Write([]byte("raw-B\n"))
+				lg.Write(empty)
+				put(3)
+			})
+			if !ok || pv != nil {
+				r.Violate("producers-blocked:empty-raw", desc, "submitting seven items into an empty buffer: returned=%v panic=%v", ok, pv)
+				continue
+			}
+			if ok, pv := hx.Within(10e9, func() { lg.Stop() }); !ok || pv != nil {
+				r.Violate("stop-failed", desc, "Stop returned=%v panic=%v", ok, pv)
+				continue
+			}
+			r.Eval(7)
+			var got []string
+			for _, rc := range rec.Recs() {
+				if rc.IsWrite {
+					got = append(got, fmt.Sprintf("raw(%q)", rc.Raw))
+				} else {
+					got = append(got, fmt.Sprintf("event(%d)", rc.ID))
+				}
+			}
+			want := []string{"event(1)", `raw("raw-A\n")`, `raw("")`, "event(2)", `raw("raw-B\n")`, `raw("")`, "event(3)"}
+			if fmt.Sprint(got) != fmt.Sprint(want) || lg.GetDiscardCounter() != 0 {
+				r.Violate("delivery:empty-raw", desc, "delivered %v (discard counter %d), want %v", got, lg.GetDiscardCounter(), want)
+			}
+		}
+	}
+}
+
+// blockWaitsAsLongAsItTakes: under Block a call into a full buffer waits for space however long the appender stalls
+// (here 2.5 s): it has not returned after 2 s, nothing is counted as discarded, and the item is delivered afterwards.
+func blockWaitsAsLongAsItTakes(r *hx.Result) {
+	lg, gate, err := gatedLogger(log.BufferFullPolicyBlock)
+	if err != nil {
+		r.SetInfra("blockWaitsAsLongAsItTakes: %v", err)
+		return
+	}
+	desc := map[string]any{"policy": "Block", "buffer": "100 of 100 slots used, worker inside the appender for 2.5 s", "then": "one event and one raw write are submitted"}
+	var evDone, rawDone int32
+	go func() {
+		e := log.GetEvent()
+		e.Level, e.Time, e.Tag = log.InfoLevel, time.Now(), "load"
+		e.Fields = []log.Field{log.Int("id", 500)}
+		lg.Append(e)
+		atomic.StoreInt32(&evDone, 1)
+	}()
+	go func() {
+		lg.Write([]byte("raw-late\n"))
+		atomic.StoreInt32(&rawDone, 1)
+	}()
+	time.Sleep(2 * time.Second)
+	early := atomic.LoadInt32(&evDone) + atomic.LoadInt32(&rawDone)
+	cnt := lg.GetDiscardCounter()
+	time.Sleep(500 * time.Millisecond)
+	close(gate.Gate)
+	if ok, pv := hx.Within(15e9, func() { lg.Stop() }); !ok || pv != nil {
+		r.Violate("stop-failed", desc, "Stop returned=%v panic=%v", ok, pv)
+		return
+	}
+	r.Eval(2)
+	nEv, nRaw := 0, 0
+	for _, rc := range gate.Recs() {
+		if rc.ID == 500 && !rc.IsWrite {
+			nEv++
+		}
+		if rc.IsWrite && string(rc.Raw) == "raw-late\n" {
+			nRaw++
+		}
+	}
+	if early != 0 || cnt != 0 || nEv != 1 || nRaw != 1 || lg.GetDiscardCounter() != 0 {
+		r.Violate("block-gave-up", desc, "after 2 s of a stalled appender %d of the 2 blocked calls had returned and the discard counter was %d; in the end the event was delivered %d x, the raw write %d x, discard counter %d",
+			early, cnt, nEv, nRaw, lg.GetDiscardCounter())
 	}
 }
 
